@@ -34,6 +34,7 @@ func init() {
 			{ID: "C03.R14", Text: "the library never writes into an event: no store into a field of a gocbcore/models event struct, no element store into a slice read from one, no mutation through reflection anywhere in the module (reads through reflection are counted as the positive control)", Run: eventsNotMutated},
 			{ID: "C03.R15", Text: "a re-opened stream keeps its observer: the observers map is written only by Open and helpers only Open reaches (the persistence watermark, catch-up point and counters of a vBucket live in its observer)", Run: observerMapWriters},
 			{ID: "C03.R16", Text: "no wake-up an event waits for can be lost: a non-blocking send is only ever made on a channel that every make() creates with a buffer", Run: lossySignals},
+			{ID: "C03.R17", Text: "nothing stands between the observer and the consumer but the handlers themselves: no wrapper around the listener or the consumer that is not a proven pass-through (same rules as C20.R19 and C20.R20)", Run: func(c *Ctx, id string) { decoratorsTransparent()(c, id); noNewLayers(c, id) }},
 			{ID: "C03.R6", Text: "the delivery switch is thrown only by the stream's close: observer.closed is written only by Observer.Close, which is called only from Stream.Close (a reopened stream reuses its observer)", Run: switchOwner},
 		},
 	})
@@ -224,6 +225,38 @@ func c03r2(c *Ctx, id string) {
 		})
 		for _, k := range docKinds {
 			c.Check(arms[k] == 1, id, "listener-arm:"+k+"@"+fname(lt), lt.Pos(), "document arm forwards exactly once", fmt.Sprintf("document arm %s forwards %d times", k, arms[k]))
+		}
+		// every event is looked at: no path leaves the listener before the dispatch on the event's type (an early return in
+		// front of the type switch is a filter on whatever it tests — guards computed by dominance do not see a
+		// disjunction like `ok && !streaming`, so this is checked on paths)
+		{
+			var asserts []ssa.Instruction
+			allInstrs(lt, func(in ssa.Instruction) {
+				if ta, isTA := in.(*ssa.TypeAssert); isTA {
+					if o := w.Origin(ta.X); strings.Contains(o, "param(") && strings.Contains(o, ".Event") {
+						asserts = append(asserts, in)
+					}
+				}
+			})
+			var head ssa.Instruction
+			for _, a := range asserts {
+				dom := true
+				for _, b := range asserts {
+					if a != b && !dominatesInstr(a, b) {
+						dom = false
+					}
+				}
+				if dom {
+					head = a
+				}
+			}
+			if head == nil {
+				c.Undecided(id, "listener-entry@"+fname(lt), lt.Pos(), "the dispatch on the event's type was not found in the listener (%d type tests on the event)", len(asserts))
+			} else {
+				first := lt.Blocks[0].Instrs[0]
+				early := first != head && existsPathAvoiding(first, func(in ssa.Instruction) bool { return in == head }, false)
+				c.Check(!early, id, "listener-entry@"+fname(lt), head.Pos(), "every path through the listener reaches the dispatch on the event's type", "a path leaves the listener before the event's type is looked at: events arriving in that state are dropped — an undocumented filter")
+			}
 		}
 		// no undocumented filter in the listener: a forward is conditional on the event's type only
 		allInstrs(lt, func(in ssa.Instruction) {
